@@ -502,7 +502,7 @@ impl Property for C06 {
             cx.count("t4_never_ending_bodies_not_run", 1);
             return;
         }
-        let inputs: &[&str] = if c.name == "T4" { &["5", "0"] } else { &["5", "(:a = 1, :b = 2)"] };
+        let inputs: &[&str] = if c.name == "T4" { &["5", "0"] } else if c.name == "T1" || c.name == "T3" { &["5", "(:a = 1, :b = 2)", "(:a = (), 7)"] } else { &["5", "(:a = 1, :b = 2)"] };
         for iname in inputs.iter().cloned() {
             let input = input_by_name(iname);
             dyn_check::<SData>(cx, &e, iname, &input);
@@ -540,7 +540,7 @@ impl Property for C06 {
         let s = spaces(tier);
         Meta {
             rule: format!(
-                "every program of the C01 corpora ({} + {} + {} + {} reapply-loop + {} call-nesting programs): static = worklist search of all abstract states (pc, operand depth, side-effect depth) reachable from the program entry and from every expression constant over the real instruction stream, invariants depth>=operand need, one depth per pc, EndExpression at depth exactly 1 outside side effects; dynamic = execution on SimpleGarnishData and BasicGarnishData with inputs 5 and (:a = 1, :b = 2), after every real step the observed operand/value/frame depths equal the abstract model's prediction and the run ends balanced; reapply loops iterate 0..4 times (T3) and as often as their guards allow (T4); a run that has not ended after 3 000 steps is not judged. The same two checks run on every input of the C03/C04 token corpora (K1 token-class sequences, K2 character strings, K4 small-scope tiers - up to length 5 in the quick tier, up to length 6 in the thorough tier; {} inputs) that the pipeline accepts and that does not contain `;;` (input 5). Non-trivial = statically balanced program with at least one operator / accepted token input.",
+                "every program of the C01 corpora ({} + {} + {} + {} reapply-loop + {} call-nesting programs): static = worklist search of all abstract states (pc, operand depth, side-effect depth) reachable from the program entry and from every expression constant over the real instruction stream, invariants depth>=operand need, one depth per pc, EndExpression at depth exactly 1 outside side effects; dynamic = execution on SimpleGarnishData and BasicGarnishData with inputs 5 and (:a = 1, :b = 2) (T1, T3: also (:a = (), 7), a key holding unit), after every real step the observed operand/value/frame depths equal the abstract model's prediction and the run ends balanced; reapply loops iterate 0..4 times (T3) and as often as their guards allow (T4); a run that has not ended after 3 000 steps is not judged. The same two checks run on every input of the C03/C04 token corpora (K1 token-class sequences, K2 character strings, K4 small-scope tiers - up to length 5 in the quick tier, up to length 6 in the thorough tier; {} inputs) that the pipeline accepts and that does not contain `;;` (input 5). Non-trivial = statically balanced program with at least one operator / accepted token input.",
                 s.t1.len(), s.t2.len(), s.t3.len(), s.t4.len(), s.t5.len(), text_total(tier)
             ),
             assumptions: vec![
